@@ -49,14 +49,18 @@ class Probes:
         mon.register_callback(TOOL, mon.events.JUMP, self._on_jump)
         mon.register_callback(TOOL, mon.events.BRANCH, self._on_jump)
         mon.register_callback(TOOL, mon.events.PY_START, self._on_start)
-        for code in self.codes:
-            mon.set_local_events(TOOL, code, mon.events.LINE)
-        for code in self.loop_codes:
-            ev = mon.events.JUMP | mon.events.BRANCH | mon.events.PY_START
-            if code in self.codes:
-                ev |= mon.events.LINE
-            mon.set_local_events(TOOL, code, ev)
         self.active = True
+        for code in set(self.codes) | set(self.loop_codes):
+            self._apply(code)
+
+    def _apply(self, code):
+        ev = 0
+        if code in self.codes:
+            ev |= mon.events.LINE
+        if code in self.loop_codes:
+            ev |= mon.events.JUMP | mon.events.BRANCH | mon.events.PY_START
+        if self.active:
+            mon.set_local_events(TOOL, code, ev)
 
     def stop(self):
         if not self.active:
@@ -110,9 +114,16 @@ class Probes:
         for ln in lns:
             self.line_cbs.setdefault((code, ln), []).append(cb)
         self.codes.add(code)
-        if self.active:
-            mon.set_local_events(TOOL, code, mon.events.LINE)
+        self._apply(code)
         return True
+
+    def off_line(self, func):
+        """remove all line callbacks of func"""
+        code = inspect.unwrap(func).__code__
+        for k in [k for k in self.line_cbs if k[0] is code]:
+            del self.line_cbs[k]
+        self.codes.discard(code)
+        self._apply(code)
 
     def _on_line(self, code, line):
         cbs = self.line_cbs.get((code, line))
@@ -127,6 +138,7 @@ class Probes:
         code = inspect.unwrap(func).__code__
         self.loop_codes[code] = budget
         self.max_backedges.setdefault(code.co_name, 0)
+        self._apply(code)
 
     def _on_start(self, code, off):
         if code in self.loop_codes:
